@@ -290,12 +290,15 @@ Definition fn_diff (a b : fn) : string :=
   else if negb (Bool.eqb (fn_is_class a) (fn_is_class b)) then "is_class differs"
   else
     match fn_bodies a, fn_bodies b with
-    | BCons (Body v1 e1 s1) BNil, BCons (Body v2 e2 s2) BNil =>
+    | BCons (Body v1 e1 s1) r1, BCons (Body v2 e2 s2) r2 =>
       if negb (list_beq var_beq v1 v2) then
         "vars differ: got [" ++ names_str (map fst v1) ++ "] expected [" ++ names_str (map fst v2) ++ "]"
       else if negb (list_beq ext_beq e1 e2) then
         "exts differ: got [" ++ names_str (map fst e1) ++ "] expected [" ++ names_str (map fst e2) ++ "]"
-      else first_step_diff 0 (list_of_steps s1) (list_of_steps s2)
+      else if negb (steps_beq s1 s2) then first_step_diff 0 (list_of_steps s1) (list_of_steps s2)
+      else if negb (Nat.eqb (List.length (list_of_bodies r1)) (List.length (list_of_bodies r2))) then
+        "number of bodies differs"
+      else "a body after the first (a method of a class) differs"
     | _, _ => "number of bodies differs"
     end.
 
